@@ -6,6 +6,9 @@ sys.path.insert(0, os.path.join(vf.VERIF, "lib"))
 import walk  # noqa: E402  (generic state-graph walker provided by the framework)
 
 LEVEL = "model_checking"
+TECHNIQUE = ("TLA+ model (TLC): exhaustive bounded MC of the concurrent state machine + TLC-generated behaviours "
+             "(simulation, edge cover of the dumped state graph) replayed step by step on the real Stream/Reader + "
+             "TLC trace validation of the replay and of a free-running -race stress")
 LEVEL_TEXT = ("Stream.tla has one action per critical section of Stream/SubStream/Reader (write under the read lock with the "
               "stale-publisher guard and the ring-buffer push, pull, callback end/error, add, the three parts of remove, publisher "
               "switch); TLC checks the statement's formulas on every interleaving of the bounded model at lock granularity and at "
